@@ -201,7 +201,7 @@ def run(tier, seed):
             v.failures([f for f in fails if f['clause'] in CL_CLAUSES])
             v.merge_counters({'ctrl_' + k: n for k, n in cnt.items()})
         if not uniq2 or not v.counters.get('ctrl_evaluations') or not v.counters.get('ctrl_feat_data_set_after_prior'):
-            raise MachineryError('vacuous controller life-cycle run')
+            v.vacuous('vacuous controller life-cycle run')
         crun, cfails, ntr = repo_count_traces(tier)
         v.failures(cfails)
         cov['repository_test_classes_validated_against_Trace_Counts'] = ntr
@@ -224,6 +224,13 @@ def run(tier, seed):
         for fails, cnt in fp['results']:
             v.failures([f for f in fails if f['clause'] in ('NamesIds', 'FP_Counts')])
             v.count('filterposterior_cases', cnt.get('cases', 0))
+        # gradient lengths of the four error models, also at points outside the support: the shared run of module ErrorModel
+        # (see C04), judged on its length clause
+        from . import check_c04
+        emr = cached('errormodel', tier, seed, lambda: check_c04._compute(tier, seed))
+        for fails, cnt in emr['results']:
+            v.failures([f for f in fails if f['clause'] == 'GradLength'])
+            v.count('errormodel_cases', cnt.get('cases', 0))
         # names of the covariate parameters after set_population_parameters (any selection, 1-2 covariates): the shared run
         # of module CovSel (see C07), judged on its names clause
         from . import check_c07
@@ -237,7 +244,7 @@ def run(tier, seed):
             v.failures([f for f in fails if f['clause'] in RC_CLAUSES])
             v.merge_counters({'reconfig_' + k: n for k, n in cnt.items()})
         if not uniq or not v.counters.get('reconfig_evaluations'):
-            raise MachineryError('vacuous reconfiguration run')
+            v.vacuous('vacuous reconfiguration run')
         cov['tlc_runs'] = cov['tlc_runs'] + runs
         cov['states'] += sum(r['states'] for r in runs)
         cov['transitions'] += sum(r['transitions'] for r in runs)
